@@ -271,7 +271,7 @@ impl CodeFormatter {
             }
             Token::Braces { block, .. } => {
                 // The trivia in front of a block statement is its leading trivia: already emitted
-                self.format_block_without_lparen_trivia(block, false);
+                self.format_block_without_lparen_trivia(block);
             }
             Token::Config(block) => {
                 self.format_block(block);
@@ -482,30 +482,29 @@ impl CodeFormatter {
     fn format_block(&mut self, block: &Block) {
         // Comments between the head of a directive, label or import and its opening brace stay in front of the brace.
         // A line comment ends its line.
-        let mut on_new_line = false;
         if let Some(t) = block.lparen.trivia.as_ref() {
             for triv in &t.data {
                 match triv {
                     Trivia::CStyle(comment) => {
                         self.push_type(ChunkType::Comment, comment);
-                        on_new_line = false;
                     }
                     Trivia::CppStyle(comment) => {
                         self.push_type(ChunkType::Comment, comment).push("\n");
-                        on_new_line = true;
                     }
                     Trivia::Whitespace(_) | Trivia::NewLine => (),
                 }
             }
         }
-        self.format_block_without_lparen_trivia(block, on_new_line);
+        self.format_block_without_lparen_trivia(block);
     }
 
-    fn format_block_without_lparen_trivia(&mut self, block: &Block, on_new_line: bool) {
+    fn format_block_without_lparen_trivia(&mut self, block: &Block) {
         match self.options.braces.position {
             BracePosition::SameLine => self.push(&block.lparen.data).push("\n"),
             BracePosition::NewLine => {
-                if !on_new_line {
+                // The brace starts a line of its own; no second line break when it already does (behind a line
+                // comment, or when the trivia of a config value already carried the line break)
+                if self.chunks.last().map(|c| c.str != "\n").unwrap_or(true) {
                     self.push("\n");
                 }
                 self.push(&block.lparen.data).push("\n")
